@@ -236,6 +236,7 @@ def plist_slice(eng, base, sl):
             raise Unsupported("strided slice of symbolic list")
         from . import models as _M
 
+        used(eng, "list-slice-with-a-concrete-step: L[a:b:s] is a new list, element t = L[lo + t*s] for t < len(range(*slice(a, b, s).indices(len(L))))")
         lo, hi, st = _M.slice_indices(eng, sl, [eng.snum(base.nz(), "int")], {})
         n, get = _M.as_sequence(eng, _M._SymRange(lo, hi, st))
         p = PList()
